@@ -199,16 +199,17 @@ pub fn close_outcome(c: &CloseCase) -> Outcome {
                     }
                 }
             }
-            // ---- fault injection
-            let mut sabotaged: Option<std::path::PathBuf> = None;
+            // ---- fault injection: EVERY ipc endpoint of the socket is affected, so that close
+            // meets as many failures as there are ipc binds
+            let mut sabotaged: Vec<std::path::PathBuf> = vec![];
             if c.close && c.sabotage > 0 {
-                if let Some(p) = endpoints.iter().find_map(|e| realnet::ipc_path_of(e)) {
+                for p in endpoints.iter().filter_map(|e| realnet::ipc_path_of(e)) {
                     let _ = std::fs::remove_file(&p);
                     if c.sabotage == 1 {
                         let _ = std::fs::create_dir(&p);
                         let _ = std::fs::write(p.join("keep"), b"x");
                     }
-                    sabotaged = Some(p);
+                    sabotaged.push(p);
                 }
             }
             // ---- the operation
@@ -220,13 +221,19 @@ pub fn close_outcome(c: &CloseCase) -> Outcome {
                         return f;
                     }
                 };
-                if sabotaged.is_none() && !errs.is_empty() {
+                if sabotaged.is_empty() && !errs.is_empty() {
                     fail!(f, format!("C17/{}/close/spurious-error", who), "close() reported {:?} in a fault-free history", errs);
                 }
-                if let (Some(p), 1) = (&sabotaged, c.sabotage) {
-                    if errs.is_empty() {
-                        fail!(f, format!("C17/{}/close/failure-not-reported", who), "the socket file {} had been replaced by a directory: close() could not remove it and returned no error", p.display());
-                    }
+                if c.sabotage == 1 && errs.len() < sabotaged.len() {
+                    fail!(
+                        f,
+                        format!("C17/{}/close/failure-not-reported", who),
+                        "{} socket file(s) had been replaced by directories ({:?}): close() could not remove them and reported {} error(s): {:?}",
+                        sabotaged.len(),
+                        sabotaged.iter().map(|p| p.display().to_string()).collect::<Vec<_>>(),
+                        errs.len(),
+                        errs
+                    );
                 }
                 // by the time close returns: listeners gone
                 for e in &endpoints {
@@ -234,7 +241,7 @@ pub fn close_outcome(c: &CloseCase) -> Outcome {
                         fail!(f, format!("C17/{}/close/endpoint-still-accepting-after-close", who), "a fresh connection to {} succeeded after close() returned", e);
                     }
                     if let Some(p) = realnet::ipc_path_of(e) {
-                        if p.exists() && sabotaged.as_ref() != Some(&p) {
+                        if p.exists() && !sabotaged.contains(&p) {
                             fail!(f, format!("C17/{}/close/ipc-file-left-behind", who), "{} still exists after close() returned", p.display());
                         }
                     }
@@ -321,6 +328,7 @@ pub fn grid() -> Vec<CloseCase> {
             for sabotage in [1u8, 2] {
                 v.push(CloseCase { kind, transport: Transport::Ipc, prefix, close: true, binds: 1, sabotage });
                 v.push(CloseCase { kind, transport: Transport::Ipc, prefix, close: true, binds: 2, sabotage });
+                v.push(CloseCase { kind, transport: Transport::Ipc, prefix, close: true, binds: 3, sabotage });
             }
         }
     }
